@@ -20,6 +20,8 @@
 // family: ns_u16 ns_i16 ns_u32 ns_i32 ns_u64 ns_i64 (integral hash -> cds::algo::number_splitter),
 //         sb1 sb2 sb4 sb8 (N-byte struct -> cds::algo::split_bitstring), bs1 bs2 bs4 bs8 (N-byte struct with
 //         traits::hash_splitter = cds::algo::byte_splitter).
+// Every case runs under alarm( 20 ) and the process under a 3 GB address-space limit: a hang or runaway allocation of the
+// code under test ends the process and leaves the case as the last, unfinished output line.
 // Single-threaded, hook off.  "rej" = hash_splitter::is_correct fails for a width (the constructor's assertion;
 // the set is not built).
 #include <cstdio>
@@ -33,6 +35,8 @@
 #include <fstream>
 #include <algorithm>
 #include <type_traits>
+#include <unistd.h>
+#include <sys/resource.h>
 
 #include <cds/init.h>
 #include <cds/gc/hp.h>
@@ -279,6 +283,10 @@ int main( int argc, char ** argv )
     std::ifstream in( argv[1] );
     g_out = std::fopen( argv[2], "w" );
     if ( !in || !g_out ) { std::fprintf( stderr, "cannot open files\n" ); return 2; }
+    {   // no runaway allocation when the code under test loops
+        struct rlimit rl; rl.rlim_cur = rl.rlim_max = (rlim_t) 3 << 30;
+        setrlimit( RLIMIT_AS, &rl );
+    }
     cds::Initialize();
     {
         cds::gc::hp::GarbageCollector::Construct( 16, 1, 64 );
@@ -293,7 +301,9 @@ int main( int argc, char ** argv )
             for ( size_t i = 0; i < tok.size(); ++i ) { if ( i ) head += " "; head += tok[i]; }
             std::fprintf( g_out, "%s -> ", head.c_str());
             std::fflush( g_out );
+            alarm( 20 );                    // a case that does not finish is a failing input (SIGALRM ends the process)
             std::string r = run_line( tok );
+            alarm( 0 );
             std::fprintf( g_out, "%s\n", r.c_str());
             std::fflush( g_out );
         }
